@@ -298,6 +298,7 @@ def held_locks(cfg: CFG, lock_paths: Iterable[str]) -> Dict[int, FrozenSet[str]]
     locks = set(lock_paths)
     gen: Dict[int, Set[str]] = {}
     kill: Dict[int, Set[str]] = {}
+    awaited_calls = {id(n.ast.value): n for n in cfg.nodes if n.kind == 'await' and isinstance(n.ast.value, ast.Call)}
     for n in cfg.nodes:
         if n.kind == 'call':
             f = n.ast.func  # type: ignore[union-attr]
@@ -305,7 +306,9 @@ def held_locks(cfg: CFG, lock_paths: Iterable[str]) -> Dict[int, FrozenSet[str]]
                 rp = cfg.res.path(f.value)
                 if rp in locks:
                     if f.attr == 'acquire' and not n.ast.args and not n.ast.keywords:  # type: ignore[union-attr]
-                        gen.setdefault(n.id, set()).add(rp)
+                        # `await sem.acquire()`: held once the await completed normally
+                        holder = awaited_calls.get(id(n.ast), n)
+                        gen.setdefault(holder.id, set()).add(rp)
                     elif f.attr == 'release':
                         kill.setdefault(n.id, set()).add(rp)
     top = frozenset(locks)
